@@ -181,6 +181,14 @@ func verifDir() string {
 	return "/verif"
 }
 
+// outDir is where evidence and replays are written (VERIF_OUT overrides it for runs against scratch copies).
+func outDir() string {
+	if d := os.Getenv("VERIF_OUT"); d != "" {
+		return d
+	}
+	return verifDir()
+}
+
 // Tier returns quick or thorough.
 func Tier() string {
 	if os.Getenv("VERIF_TIER") == "thorough" {
@@ -612,8 +620,8 @@ func (s *Suite) Main() {
 		ev["harness_error"] = harnessErr
 	}
 	b, _ := json.MarshalIndent(ev, "", " ")
-	os.MkdirAll(filepath.Join(verifDir(), "evidence"), 0o755)
-	if err := os.WriteFile(filepath.Join(verifDir(), "evidence", s.Property+".json"), b, 0o644); err != nil {
+	os.MkdirAll(filepath.Join(outDir(), "evidence"), 0o755)
+	if err := os.WriteFile(filepath.Join(outDir(), "evidence", s.Property+".json"), b, 0o644); err != nil {
 		t.Fatalf("write evidence: %v", err)
 	}
 	fmt.Printf("SUMMARY property=%s tier=%s executions=%d states=%d transitions=%d outcomes=%d nontrivial=%d exhaustive=%v violations=%d known=%d wall=%.1fs\n",
@@ -937,7 +945,7 @@ func (s *Suite) explore(sc *Scenario, tier string, seed int64, deadline time.Tim
 func (s *Suite) writeReplay(v violation) string {
 	h := sha256.Sum256([]byte(s.Property + v.Scenario + vecKey(v.Vector)))
 	name := fmt.Sprintf("%s-%s.json", s.Property, hex.EncodeToString(h[:6]))
-	dir := filepath.Join(verifDir(), "replays")
+	dir := filepath.Join(outDir(), "replays")
 	os.MkdirAll(dir, 0o755)
 	path := filepath.Join(dir, name)
 	labels := make([]string, len(v.Res.Points))
